@@ -84,6 +84,16 @@ Qed.
 Lemma vest_end_local_utc a t months : tz a = utc -> vest_end_local a t months = vest_end t months.
 Proof. intros E. unfold vest_end_local, vest_end. rewrite E. reflexivity. Qed.
 
+(** In a zone with a fixed offset the local computation is the UTC computation on the shifted instant:
+    the zone matters exactly when adding calendar months does not commute with the shift. *)
+Lemma fixed_zone_is_shift o t months : add_months (fixed_zone o) t months = add_months utc (t + o) months - o.
+Proof.
+  unfold add_months, fixed_zone, utc, wall_to_instant. rewrite Z.add_0_r.
+  destruct (civil_from_days ((t + o) / 86400)) as [[y m] d].
+  change (0 =? 0) with true. cbv iota. rewrite Z.eqb_refl.
+  destruct (Z.eqb_spec o 0) as [E|E]; [subst o|]; lia.
+Qed.
+
 (** The source computes the period from the block time itself (regenerated on every check). *)
 Lemma vesting_period_source_shape :
   Gen.C08.vesting_period_shape =
